@@ -42,6 +42,7 @@ type c10Req struct {
 type c10Plan struct {
 	pages int
 	gapMs int
+	pad   int // filler bytes in the first page (a page far larger than the ones that follow it at once)
 }
 
 func c10Route(r *Run, rawPeer bool) {
@@ -116,9 +117,15 @@ func c10Route(r *Run, rawPeer bool) {
 	for i := 0; i < K; i++ {
 		for j := 0; j < M; j++ {
 			p := c10Plan{pages: 1}
-			if v.IsDse() && T.Bool("paged", 0.5) {
+			// multi-page responses (continuous-paging flags): in the DSE versions often, in the others now and then
+			// (the codecs carry the flags in every version and the statement is about all versions)
+			if (v.IsDse() && T.Bool("paged", 0.5)) || (!v.IsDse() && T.Bool("paged.oss", 0.2)) {
 				p.pages = 1 + T.Draw("pages", maxPending)
 				p.gapMs = T.Draw("gapms", 30)
+				if p.pages > 1 && opts.Capacity >= 4096 && T.Bool("bigpage", 0.25) {
+					p.pad = 33000 + T.Draw("bigpage.pad", 70000)
+					p.gapMs = 0 // the small pages follow the big one at once
+				}
 			}
 			tag := fmt.Sprintf("q%d.%d", i, j)
 			paceMs[tag] = T.DrawP("pacems", 40, 0.5)
@@ -294,7 +301,11 @@ func c10Route(r *Run, rawPeer bool) {
 					if pg > 0 && p.gapMs > 0 {
 						r.Sleep(ms(p.gapMs))
 					}
-					pf := pageFrame(v, f.Header.StreamId, tag, pg, p.pages)
+					pad := 0
+					if pg == 0 {
+						pad = p.pad
+					}
+					pf := pageFramePadded(v, f.Header.StreamId, tag, pg, p.pages, pad)
 					at := time.Now()
 					if send(pf) {
 						sentPages[tag] = append(sentPages[tag], pageTag(pf))
@@ -322,7 +333,7 @@ func c10Route(r *Run, rawPeer bool) {
 						sid = explicitIds[i]
 					}
 					qf := queryFrame(v, sid, rec.tag)
-					if plans[rec.tag].pages > 1 || (v.IsDse() && len(rec.tag)%2 == 0) {
+					if v.IsDse() && (plans[rec.tag].pages > 1 || len(rec.tag)%2 == 0) {
 						// a DSE continuous-paging request carries its paging options (0 = no page limit)
 						q := qf.Body.Message.(*message.Query)
 						q.Options.PageSize = 100
